@@ -179,19 +179,24 @@ CLAIMED["C15"] = (
     _NOTE, "DESIGN.md section 5, C15")
 
 CLAIMED["C19"] = (
-    "path rule (raise dominates loop) on integer_power; rules F/K/W with "
-    "single-use-iterator tracking on the polynomial traversals; path conditions "
-    "of quotient(); class census for hashability of the exact legacy nodes; "
-    "argument-forwarding rule on the thin FFT wrappers; linear-form reading of "
-    "operators defined through + and unary minus; loop-exit rule on polynomial "
-    "long division",
-    "Partial: only the anchored structural clauses are decided (negative-n "
-    "refusal, coefficients surviving a rewriting mapper, exact-quotient node "
-    "built only for Euclidean rings and evaluated as numerator/denominator, "
-    "ifft/sym_fft hand every option on to fft, derived operators have the "
-    "right signs, long division ends with a remainder below the divisor). "
-    "Euclid, lcm, the FFT butterfly and directly computed polynomial arithmetic "
-    "are numeric and declined.",
+    "abstract interpretation of integer_power, extended_euclidean, the Horner "
+    "evaluation of Polynomial nodes and Polynomial's operators over polynomial "
+    "normal forms (pv/absint.py: concrete control, symbolic ring/monoid "
+    "elements, no solver): loop-invariant verification conditions discharged by "
+    "normal-form equality (integer_power for every n, Bezout's identity for "
+    "every input), bounded shape enumeration for the rest; path rule (raise "
+    "dominates loop); rules F/K/W with single-use-iterator tracking on the "
+    "polynomial traversals; path conditions of quotient(); class census; "
+    "argument-forwarding rule on the FFT wrappers; linear-form reading of "
+    "derived operators; loop-exit rule on polynomial long division; aliasing "
+    "rule (no augmented assignment on caller-owned arguments)",
+    "Partial: x**n for every n >= 0 and refusal of n < 0; g = a*q + b*r for "
+    "every input; Horner value on 11 exponent shapes; Polynomial -p, p**k, p*s, "
+    "s*p, p+q, p-q, p*q, divmod homomorphic and normalised on 190 operand "
+    "shapes (one base, field coefficients); coefficients survive a rewriting "
+    "mapper; exact-quotient node; ifft/sym_fft forward their options. Not "
+    "decided: that g is a *greatest* common divisor, lcm, the FFT's arithmetic, "
+    "polynomials over different bases or non-field coefficients.",
     _NOTE, "DESIGN.md section 5, C19")
 
 CLAIMED["C16"] = (
